@@ -16,7 +16,7 @@ LEVEL = "model_checking"
 LEVEL_TEXT = ("Explicit enumeration of all statement sequences of length 3 (thorough: 4) over an alphabet with one representative per "
               "size mechanism (explicit suffix; width inferred from a literal, a := constant, a backward/forward label, a name shadowed "
               "by an inner label or `=` defined later/earlier; data lists; .ascii; .text; .incbin of 0/1/5/65541 bytes (the last one crosses two bank ends); macro, loop, "
-              "conditional, block, named scope, .include_ips; *= and @= moves) x 2 start positions (window start, 3 bytes before a bank end) x "
+              "conditional, block, named scope, .include_ips; *= (also to file offset 0 and to the address already reached) and @= moves) x 2 start positions (window start, 3 bytes before a bank end) x "
               "LoROM/HiROM. A label and a unique 4-byte marker follow every statement; the marker's file offset in the real output, "
               "pulled back through the bus model, is where the next byte really went and must equal the label's value from "
               "get_all_labels() and from a `.dl label` table. Tests assert three or four labels in straight-line programs.")
@@ -43,7 +43,7 @@ TABLE = "10=a\n1112=ab\n20=b\n"
 KINDS = ["ins-explicit", "ins-lit1", "ins-lit2", "ins-lit3", "ins-const", "ins-imm-const", "ins-back", "ins-fwd",
          "sh-later-label", "sh-earlier-label", "sh-later-eq", "sh-earlier-eq", "sh-scope-label", "sh-macro-label",
          "db1", "dw2", "dl3", "ptr-back", "ascii", "text", "incbin0", "incbin1", "incbin5",
-         "macro-narrow", "macro-wide", "for", "if", "block", "nop", "incips", "org", "org-zero", "reloc-rom", "reloc-ram"]
+         "macro-narrow", "macro-wide", "for", "if", "block", "nop", "incips", "org", "org-zero", "org-here", "reloc-rom", "reloc-ram"]
 VARIABLE = {"ins-lit1", "ins-lit2", "ins-lit3", "ins-const", "ins-imm-const", "ins-back", "sh-later-label", "sh-earlier-label",
             "sh-later-eq", "sh-earlier-eq", "sh-scope-label", "sh-macro-label", "text", "incbin0", "incbin1", "incbin5", "incbin65541",
             "macro-narrow", "macro-wide", "for", "if"}
@@ -157,6 +157,9 @@ def stmt(kind, i, pl):
         return [("org", N(pl["other"] + 0x100 * i))]
     if kind == "org-zero":
         return [("org", N(pl["zero"] + 0x100 * i))]
+    if kind == "org-here":
+        # *= to the run address already reached: the output must move to the offset that address maps to
+        return [("label", f"here{i}"), ("org", S(f"here{i}"))]
     if kind == "reloc-rom":
         return [("reloc", N(pl["rrom"] + 0x100 * i))]
     if kind == "reloc-ram":
@@ -226,10 +229,22 @@ def check_program(busname, si, kinds, viol):
             viol.append({"key": "labels:marker-not-emitted-once", "msg": f"marker {i} found {len(hits)} times :: {src!r}"})
             return 1, "MARKER-LOST"
         offs[i] = hits[0]
-    for i in range(n):
-        # most recent top-level move at or before statement i
+    def segment(i):
+        """(run address, file offset) base of the segment that label i belongs to; None if unspecified."""
         base_run, base_off = start, bus.phys(start)
         for m in range(i, -1, -1):
+            if kinds[m] == "org-here":
+                # the run address reached just before statement m = where the byte after marker m-1 (or the start marker) went
+                prev = run_of(m - 1) if m > 0 else None
+                here = (bus.advance(prev, 4) if prev is not None else None) if m > 0 else bus.advance(start, 4)
+                if here is None:
+                    return None
+                try:
+                    if bus.rng(here).ram:
+                        return None  # *= to RAM: output offset not compared here
+                except refbus.Unmapped:
+                    return None
+                return here, bus.phys(here)
             if kinds[m] in ("org", "org-zero"):
                 base_run = (pl["other"] if kinds[m] == "org" else pl["zero"]) + 0x100 * m
                 base_off = bus.phys(base_run)
@@ -238,7 +253,19 @@ def check_program(busname, si, kinds, viol):
                 base_run = (pl["rrom"] if kinds[m] == "reloc-rom" else pl["rram"]) + 0x100 * m
                 base_off = offs[m - 1] + 4 if m > 0 else offs[0x7F] + 4
                 break
-        expect = bus.advance(base_run, offs[i] - base_off)
+        return base_run, base_off
+
+    memo = {}
+
+    def run_of(i):
+        """Run address of the byte right after label i (= of marker i), from the marker's real file offset."""
+        if i not in memo:
+            seg = segment(i)
+            memo[i] = None if seg is None else bus.advance(seg[0], offs[i] - seg[1])
+        return memo[i]
+
+    for i in range(n):
+        expect = run_of(i)
         if expect is None:
             continue
         got = labels.get(f"L{i}")
